@@ -8,8 +8,9 @@ passed in, so (seed, index) replays a case exactly.
 
 import math
 
-# sub-hourly loggers, hourly gauges, and coarse records: 3-hourly, 6-hourly, daily and two-daily totals
-STEPS = [600, 1200, 1800, 3600, 600, 1200, 1800, 3600, 300, 10800, 21600, 86400, 172800]
+# sub-hourly loggers, hourly gauges, coarse records (3-hourly, 6-hourly, daily, two-daily totals) and fast pressure
+# transducers whose step is not a whole number of minutes (1, 10, 30, 45, 90 s)
+STEPS = [600, 1200, 1800, 3600, 600, 1200, 1800, 3600, 300, 10800, 21600, 86400, 172800, 30, 90, 10, 45, 1]
 THRESHOLDS = [0.5, 1.0, 2.0, 4.0, 5.0, 8.0]
 
 
@@ -255,11 +256,12 @@ def boundary_record(rng):
     to the decimal number `threshold x step` -- one ulp above or below the floating-point product the tool compares with
     (0.3 mm/h x 3 h: the product is 0.8999999999999999, the recorded increment 0.9)."""
     for _ in range(200):
-        dt = rng.choice([360, 600, 1080, 1200, 1800, 3600, 7200, 10800, 21600, 86400])
+        dt = rng.choice([360, 600, 1080, 1200, 1800, 3600, 7200, 10800, 21600, 86400, 90, 30])
         j = rng.choice(DECIMAL_THRESHOLDS + [0.1, 0.2, 0.9, 1.3, 9.2])
         h = dt / 3600.0
         if round(j * h, 1) != j * h and abs(round(j * h, 1) - j * h) < 1e-9 and round(j * h, 1) > 0:
-            break
+            if round(j * h, 1) > j * h or rng.random() < 0.3:      # mostly: the recorded increment is the one ulp ABOVE
+                break
     s = rng.choice([0.3, 0.7, 1.0, 2.0])
     n = rng.randint(8, 30)
     rc, ic = [], []
@@ -274,6 +276,31 @@ def boundary_record(rng):
             ic += [rng.choice(["fall", "flat", "slow"])] * k
     rec = build_record(rng, s, j, dt, n, rc[:n], ic[:n], gaps=rng.choice([0, 0, 1]))
     return rec, s, j
+
+
+def giant_record(rng, s, j):
+    """Years of 10-minute data (about 300,000 samples) with a light shower twice a day: thousands of dry stretches, a few
+    real storms, and the record ends in dry weather (the logger is collected on a dry day)."""
+    dt = 600
+    n = rng.randint(290000, 320000)
+    jd = j * (dt / 3600.0)
+    t0 = (rng.randint(631152000, 1400000000) // dt) * dt
+    period = rng.randint(60, 90)
+    rain, level = [], [0.0]
+    for i in range(n - 1):
+        ph = i % period
+        if i % (period * 97) < 4 and i > period:
+            rain.append(rain_value(rng, "heavy", s))
+            level.append(level[-1] + jd * 1.25)
+        elif ph == 0:
+            rain.append(s * 0.5)                       # a shower below the storm threshold
+            level.append(level[-1] + jd * 0.5)
+        else:
+            rain.append(0.0)
+            level.append(level[-1] - jd * 0.5 / (period - 1) - (jd * 5.0 / (period * 97.0) if level[-1] > 0 else 0.0))
+    rain.append(0.0)
+    # ends dry: the last stretch runs to the last sample
+    return Record(dt, t0, rain, level, set(), 0, 1)
 
 
 def build_record(rng, s, j, dt, n, rc, ic, t0=None, gaps=None, pre=None, post=None):
